@@ -26,6 +26,9 @@ impl Bytes {
     { unimplemented!() }
 }
 
+/// a buffer handed out by `split()` is determined by its content
+pub uninterp spec fn bytesmut_of(b: Seq<u8>) -> BytesMut;
+
 impl BytesMut {
     pub uninterp spec fn view(&self) -> Seq<u8>;
     pub uninterp spec fn cap(&self) -> nat;
@@ -61,7 +64,7 @@ impl BytesMut {
 
     #[verifier::external_body]
     pub fn split(&mut self) -> (r: BytesMut)
-        ensures r@ == old(self)@, final(self)@.len() == 0,
+        ensures r@ == old(self)@, final(self)@ == Seq::<u8>::empty(), r == bytesmut_of(old(self)@),
     { unimplemented!() }
 
     /// Buf::advance; panics if `cnt > len`
@@ -143,15 +146,28 @@ impl String {
 
     #[verifier::external_body]
     pub fn new() -> (r: String)
-        ensures r.bytes() == Seq::<u8>::empty(),
+        ensures r.bytes() == Seq::<u8>::empty(), r == string_of(Seq::<u8>::empty()),
     { unimplemented!() }
 
     #[verifier::external_body]
     pub fn from_utf8(v: Vec<u8>) -> (r: Result<String, FromUtf8Error>)
         ensures r.is_ok() <==> is_utf8(v@),
-                r matches Ok(s) ==> s.bytes() == v@,
+                r matches Ok(s) ==> s.bytes() == v@ && s == string_of(v@),
     { unimplemented!() }
 }
+
+/// a String is determined by its bytes
+pub uninterp spec fn string_of(b: Seq<u8>) -> String;
+
+#[verifier::external_body]
+pub proof fn axiom_string_of(b: Seq<u8>)
+    ensures string_of(b).bytes() == b,
+{ }
+
+#[verifier::external_body]
+pub proof fn axiom_string_ext(s: String)
+    ensures string_of(s.bytes()) == s,
+{ }
 
 impl IoError {
     #[verifier::external_body]
